@@ -164,6 +164,11 @@ func cornerEvents(prop string) []string {
 			gw.EvC("REGISTER(7168-byte name)", gw.Register(0, 5, strings.Repeat("n", 7168))),
 			gw.EvC("CONNECT(c1,0)", gw.Connect("c1", 0, false, true)),
 			gw.EvC("CONNECT(protocol id 2)", refsn.Pkt{Type: refsn.CONNECT, ProtoID: 2, Duration: 30, Data: []byte("c1")}.Encode()),
+			// requests in the 3-octet length form although they are short (MQTT-SN 1.2 5.2.1 allows it): a reply that
+			// reuses the request's header must still be well-formed
+			gw.EvC("DISCONNECT(3-octet length form)", []byte{0x01, 0x00, 0x04, 0x18}),
+			gw.EvC("PINGREQ(3-octet length form)", []byte{0x01, 0x00, 0x04, 0x16}),
+			gw.EvC("DISCONNECT(5, 3-octet length form)", []byte{0x01, 0x00, 0x06, 0x18, 0x00, 0x05}),
 		)
 		return a
 	}
@@ -246,7 +251,7 @@ func runWellFormed(t *testing.T, prop, test string) {
 	rep := explore.NewReport(prop, "model_checking")
 	gw.BFSCheck(rep, specs, gw.BFSOpts{Test: test}, 240, 1500)
 	if prop == "C23" {
-		rep.Coverage["rule"] = "BFS (depth 3, thorough 4) over connect / subscribe / sleep / wake events plus the corner inputs the property names (broker payloads of 0..70000 bytes on short, predefined and new topics, payloads and new topic names that put the datagram size at 254..258 bytes, an 8170-byte new topic name, a 7168-byte REGISTER, CONNECT with keep-alive 0 and with a wrong protocol id, CONNECT while asleep/awake); every datagram the gateway sends is decoded by the reference decoder: decodable, type valid gateway->client, length field = size, canonical length form, size <= 8192. (The client-library direction is checked by the client harness part.)"
+		rep.Coverage["rule"] = "BFS (depth 3, thorough 4) over connect / subscribe / sleep / wake events plus the corner inputs the property names (broker payloads of 0..70000 bytes on short, predefined and new topics, payloads and new topic names that put the datagram size at 254..258 bytes, an 8170-byte new topic name, a 7168-byte REGISTER, CONNECT with keep-alive 0 and with a wrong protocol id, CONNECT while asleep/awake, DISCONNECT / PINGREQ requests in the 3-octet length form); every datagram the gateway sends is decoded by the reference decoder: decodable, type valid gateway->client, length field = size, canonical length form, size <= 8192. (The client-library direction is checked by the client harness part.)"
 	} else {
 		rep.Coverage["rule"] = "BFS (depth 3, thorough 4) over connect / subscribe / sleep / wake events plus malformed-but-decodable client input (reserved topic id type, QoS 1/2 with msg id 0, short topics containing wildcards, SUBSCRIBE QoS 3 / msg id 0 / malformed filters, REGISTER of wildcard names and publishing to them, will QoS 3, wildcard will topic, empty WILLTOPIC with the Will flag, empty client id without clean session, PUBREL msg id 0); every packet written to the broker is parsed and validated by an independent MQTT 3.1.1 validator"
 	}
